@@ -18,6 +18,8 @@ for f in sorted(glob.glob('/verif/seeded/*/meta.json')):
     what = re.sub(r'\s+', ' ', what)[:230]
     caught = ', '.join(m.get('caught_by') or []) or '**none**'
     own = 'yes' if m['property'] in (m.get('caught_by') or []) else 'no'
+    if m.get('neutralised_on_final_tree'):
+        caught += f" (on bc19a71; no longer a breaking change since {m['neutralised_on_final_tree']['by']})"
     rows.append(f"| {m['id']} | {what} | {caught} | {own} |")
 table = "| seeded change | what it does / needs | caught by (quick tier) | by its own property's check |\n|---|---|---|---|\n" + "\n".join(rows)
 s = open('/verif/DESIGN.md').read()
